@@ -22,7 +22,7 @@ func qualifiedTypeName(t types.Type) string {
 func (p *Prog) registerAbsFields(cf *ContractFile) {
 	for _, a := range cf.AbsFields {
 		tn := a.Type
-		if !strings.Contains(tn, ".") && cf.Pkg != "" {
+		if tn != "interface" && !strings.Contains(tn, ".") && cf.Pkg != "" {
 			tn = cf.Pkg + "." + tn
 		}
 		if p.absFields[tn] == nil {
@@ -40,6 +40,15 @@ func (e *Engine) absFieldOf(baseT types.Type, name string) (string, string, type
 	t := types.Unalias(baseT)
 	if pt, ok := t.Underlying().(*types.Pointer); ok {
 		t = types.Unalias(pt.Elem())
+	}
+	if baseT != nil {
+		if _, isIface := baseT.Underlying().(*types.Interface); isIface {
+			// abstract fields of the dynamic value behind any interface view (keyed by its identity)
+			if af, ok := e.P.absFields["interface"][name]; ok {
+				ft := e.P.resolveType(af.FType, "", nil)
+				return "Abs_iface_" + mangle(name), fmt.Sprintf("(Array Int %s)", e.sortOf(ft)), ft, true
+			}
+		}
 	}
 	qn := qualifiedTypeName(t)
 	if qn == "" {
@@ -227,4 +236,83 @@ func pow2iDef() string {
 	b.WriteString(strings.Repeat(")", 64))
 	b.WriteString(")")
 	return b.String()
+}
+
+// absRef: the key under which abstract fields of a value are stored.
+func (e *Engine) absRef(base Val) string {
+	if _, ok := base.Typ.Underlying().(*types.Interface); ok {
+		return fmt.Sprintf("(ival %s)", base.T)
+	}
+	return base.T
+}
+
+// havocArgs: an unmodelled callee outside the repository may write through the pointers,
+// slices and maps it is handed; those locations get arbitrary new contents.
+func (e *Engine) havocArgs(st *State, args []Val) {
+	for _, a := range args {
+		switch a.K {
+		case kPtr:
+			p := a.P
+			old := e.loadPtr(st, p)
+			if old.K == kTerm {
+				e.storePtr(st, p, e.freshOf(st, "hv", old.Typ))
+			}
+		case kTerm:
+			if a.Typ == nil {
+				continue
+			}
+			switch u := a.Typ.Underlying().(type) {
+			case *types.Interface:
+				// a pointer boxed in an interface value built in this function
+				var id int
+				var rest string
+				if n, _ := fmt.Sscanf(a.T, "(mk_iface %d ", &id); n == 1 {
+					rest = strings.TrimSuffix(a.T[strings.Index(a.T[10:], " ")+11:], ")")
+					if dt, ok := e.S.typeOfID[id]; ok {
+						if _, isPtr := dt.Underlying().(*types.Pointer); isPtr {
+							e.havocArgs(st, []Val{term(rest, dt)})
+						}
+					}
+				}
+			case *types.Pointer:
+				if _, ok := e.interiorPtrRev[a.T]; ok {
+					p := e.interiorPtrRev[a.T]
+					old := e.loadPtr(st, p)
+					if old.K == kTerm {
+						e.storePtr(st, p, e.freshOf(st, "hv", old.Typ))
+					}
+					continue
+				}
+				el := u.Elem()
+				switch eu := el.Underlying().(type) {
+				case *types.Struct:
+					for i := 0; i < eu.NumFields(); i++ {
+						name, sort := e.fieldMapName(el, i)
+						h := e.heapGet(st, name, sort)
+						nv := e.S.Fresh("hv_"+eu.Field(i).Name(), e.sortOf(eu.Field(i).Type()))
+						e.heapSet(st, name, sort, fmt.Sprintf("(store %s %s %s)", h, a.T, nv))
+					}
+				case *types.Array:
+					name, sort := e.arrMapName(eu.Elem())
+					h := e.heapGet(st, name, sort)
+					e.heapSet(st, name, sort, fmt.Sprintf("(store %s %s %s)", h, a.T, e.S.Fresh("hv_arr", e.sortOf(el))))
+				default:
+					name, sort := e.boxMapName(el)
+					h := e.heapGet(st, name, sort)
+					e.heapSet(st, name, sort, fmt.Sprintf("(store %s %s %s)", h, a.T, e.S.Fresh("hv_box", e.sortOf(el))))
+				}
+			case *types.Slice:
+				name, sort := e.arrMapName(u.Elem())
+				h := e.heapGet(st, name, sort)
+				na := e.S.Fresh("hv_arr", fmt.Sprintf("(Array %s %s)", e.S.IntSort(), e.sortOf(u.Elem())))
+				e.heapSet(st, name, sort, fmt.Sprintf("(store %s (sl_ref %s) %s)", h, a.T, na))
+			case *types.Map:
+				hn, hs, vn, vs := e.mapHeapNames(u)
+				h := e.heapGet(st, hn, hs)
+				e.heapSet(st, hn, hs, fmt.Sprintf("(store %s %s %s)", h, a.T, e.S.Fresh("hv_has", fmt.Sprintf("(Array %s Bool)", e.sortOf(u.Key())))))
+				v := e.heapGet(st, vn, vs)
+				e.heapSet(st, vn, vs, fmt.Sprintf("(store %s %s %s)", v, a.T, e.S.Fresh("hv_val", fmt.Sprintf("(Array %s %s)", e.sortOf(u.Key()), e.sortOf(u.Elem())))))
+			}
+		}
+	}
 }
